@@ -64,7 +64,9 @@ Proof.
   - destruct (cclosed (cx s y)); [|destruct (negb (is_pipe (cx s y)))]; simpl;
       rewrite ?trigs_edge, ?phases_edge, ?tr_edge, ?clist_edge; simpl; repeat split; eauto; lia.
   - simpl. rewrite ?trigs_edge, ?phases_edge, ?tr_edge, ?clist_edge. simpl. repeat split; eauto; lia.
-  - simpl. repeat split; eauto; lia.
+  - simpl. rewrite ?trigs_edge, ?phases_edge, ?tr_edge, ?clist_edge. simpl. repeat split; eauto; lia.
+  - destruct (can_reset (cx s y)); simpl;
+      rewrite ?trigs_edge, ?phases_edge, ?tr_edge, ?clist_edge; simpl; repeat split; eauto; lia.
 Qed.
 
 Definition tg (s s' : st) : Prop := exists t, tr s' = t ++ tr s.
@@ -272,16 +274,16 @@ Qed.
    undoes a shutdown *)
 Definition fdm (c c' : cst) : Prop :=
   ckind c' = ckind c /\ cq c <= cq c' /\ (ceof c = true -> ceof c' = true) /\
-  (cpopen c' = true -> cpopen c = true) /\ (csht c = true -> csht c' = true).
+  (cpopen c' = true -> cpopen c = true) /\ (csht c = true -> csht c' = true) /\ (crst c = true -> crst c' = true).
 
 Lemma fdm_refl : forall c, fdm c c.
 Proof. intros; repeat split; auto. Qed.
 Lemma fdm_trans : forall a b c, fdm a b -> fdm b c -> fdm a c.
-Proof. intros a b c (A1 & A2 & A3 & A4 & A5) (B1 & B2 & B3 & B4 & B5). repeat split; auto; try congruence; lia. Qed.
+Proof. intros a b c (A1 & A2 & A3 & A4 & A5 & A6) (B1 & B2 & B3 & B4 & B5 & B6). repeat split; auto; try congruence; lia. Qed.
 
 Lemma ev_in_fdm : forall c c', fdm c c' -> ev_in c = true -> ev_in c' = true.
 Proof.
-  intros c c' (K & Q & E & P & S) H. unfold ev_in in *. rewrite K.
+  intros c c' (K & Q & E & P & S & R) H. unfold ev_in in *. rewrite K.
   destruct (ckind c).
   - apply Nat.ltb_lt in H. apply Nat.ltb_lt. lia.
   - apply Bool.orb_true_iff in H. destruct H as [H|H].
@@ -298,11 +300,12 @@ Qed.
 
 Lemma ev_hup_fdm : forall c c', fdm c c' -> ev_hup c = true -> ev_hup c' = true.
 Proof.
-  intros c c' (K & Q & E & P & S) H. unfold ev_hup in *. rewrite K.
+  intros c c' (K & Q & E & P & S & R) H. unfold ev_hup in *. rewrite K.
   destruct (ckind c); auto.
   - apply Bool.orb_true_iff in H. destruct H as [H|H].
     + apply Bool.negb_true_iff in H. destruct (cpopen c') eqn:X; auto. rewrite (P eq_refl) in H. discriminate.
     + rewrite (S H). rewrite Bool.orb_true_r. auto.
+  - apply Bool.orb_true_iff in H. destruct H as [H|H]; [rewrite (S H); auto|rewrite (R H), Bool.orb_true_r; auto].
 Qed.
 
 Definition fdm_all (s s' : st) : Prop := forall z, fdm (cx s z) (cx s' z).
@@ -329,31 +332,35 @@ Lemma fdm_do_act : forall a s, fdm_all s (do_act a s).
 Proof.
   intros a s. destruct a; unfold do_act.
   - destruct (can_write (cx s y)); [|apply fdm_cx_eq; auto].
-    eapply fdm_all_trans; [apply (fdm_updc y (mkC (ckind (cx s y)) (cq (cx s y) + k) (ceof (cx s y)) (cpopen (cx s y)) (csht (cx s y)) (cflag (cx s y)) (cadded (cx s y)) (cregok (cx s y)) (cclosed (cx s y)) (coff (cx s y))))|].
+    eapply fdm_all_trans; [apply (fdm_updc y (mkC (ckind (cx s y)) (cq (cx s y) + k) (ceof (cx s y)) (cpopen (cx s y)) (csht (cx s y)) (cflag (cx s y)) (cadded (cx s y)) (cregok (cx s y)) (cclosed (cx s y)) (coff (cx s y)) (crst (cx s y))))|].
     + repeat split; simpl; auto; lia.
     + apply fdm_cx_eq. destruct (Nat.eqb k 0); simpl; rewrite ?cx_edge; auto.
   - destruct (cpopen (cx s y) && negb (ceof (cx s y))) eqn:G; [|apply fdm_cx_eq; auto].
     apply Bool.andb_true_iff in G. destruct G as [P _].
-    eapply fdm_all_trans; [apply (fdm_updc y (mkC (ckind (cx s y)) (cq (cx s y)) true (negb (is_pipe (cx s y))) (csht (cx s y)) (cflag (cx s y)) (cadded (cx s y)) (cregok (cx s y)) (cclosed (cx s y)) (coff (cx s y))))|].
+    eapply fdm_all_trans; [apply (fdm_updc y (mkC (ckind (cx s y)) (cq (cx s y)) true (negb (is_pipe (cx s y))) (csht (cx s y)) (cflag (cx s y)) (cadded (cx s y)) (cregok (cx s y)) (cclosed (cx s y)) (coff (cx s y)) (crst (cx s y))))|].
     + repeat split; simpl; auto.
     + apply fdm_cx_eq. simpl. rewrite ?cx_edge; auto.
   - destruct (cpopen (cx s y)) eqn:P; [|apply fdm_cx_eq; auto].
-    eapply fdm_all_trans; [apply (fdm_updc y (mkC (ckind (cx s y)) (cq (cx s y)) true false (csht (cx s y)) (cflag (cx s y)) (cadded (cx s y)) (cregok (cx s y)) (cclosed (cx s y)) (coff (cx s y))))|].
+    eapply fdm_all_trans; [apply (fdm_updc y (mkC (ckind (cx s y)) (cq (cx s y)) true false (csht (cx s y)) (cflag (cx s y)) (cadded (cx s y)) (cregok (cx s y)) (cclosed (cx s y)) (coff (cx s y)) (crst (cx s y))))|].
     + repeat split; simpl; auto; try (intros; discriminate).
     + apply fdm_cx_eq. destruct (is_tcp (cx s y) && ceof (cx s y)); simpl; rewrite ?cx_edge; auto.
   - destruct (cadded (cx s y) || Nat.eqb y 0); [apply fdm_cx_eq; auto|].
-    set (c1 := mkC _ _ _ _ _ _ true _ _ _).
+    set (c1 := mkC _ _ _ _ _ _ true _ _ _ _).
     destruct (add_ctx_other y (updc y c1 s)) as (_ & _ & _ & D & _).
     destruct (add_ctx y (updc y c1 s)) as [s1 ok]. simpl in D.
     intros z. simpl. rewrite D. simpl.
     destruct (Nat.eqb z y) eqn:E; [|apply fdm_refl].
     apply Nat.eqb_eq in E. subst z. rewrite Nat.eqb_refl. unfold c1. repeat split; simpl; auto.
   - destruct (cclosed (cx s y)); [apply fdm_cx_eq; auto|].
-    eapply fdm_all_trans; [apply (fdm_updc y (mkC (ckind (cx s y)) (cq (cx s y)) (ceof (cx s y)) (cpopen (cx s y)) (csht (cx s y) || negb (is_pipe (cx s y))) true (cadded (cx s y)) (cregok (cx s y)) false (coff (cx s y))))|].
+    eapply fdm_all_trans; [apply (fdm_updc y (mkC (ckind (cx s y)) (cq (cx s y)) (ceof (cx s y)) (cpopen (cx s y)) (csht (cx s y) || negb (is_pipe (cx s y))) true (cadded (cx s y)) (cregok (cx s y)) false (coff (cx s y)) (crst (cx s y))))|].
     + repeat split; simpl; auto. intros H. rewrite H. auto.
     + apply fdm_cx_eq. destruct (negb (is_pipe (cx s y))); simpl; rewrite ?cx_edge; auto.
   - apply fdm_cx_eq. simpl. rewrite cx_edge. auto.
-  - apply fdm_cx_eq. auto.
+  - apply fdm_cx_eq. simpl. rewrite cx_edge. auto.
+  - destruct (can_reset (cx s y)) eqn:G; [|apply fdm_cx_eq; auto].
+    eapply fdm_all_trans; [apply (fdm_updc y (mkC (ckind (cx s y)) (cq (cx s y)) true false (csht (cx s y)) (cflag (cx s y)) (cadded (cx s y)) (cregok (cx s y)) (cclosed (cx s y)) (coff (cx s y)) true))|].
+    + repeat split; simpl; auto; try (intros; discriminate).
+    + apply fdm_cx_eq. simpl. rewrite ?cx_edge; auto.
 Qed.
 
 Lemma fdm_do_acts : forall l s, fdm_all s (do_acts l s).
@@ -520,7 +527,7 @@ Proof.
     assert (events s2 x = events_c (cx s2 x)) as Ee.
     { unfold events. destruct Hx as [_ Hx]. apply Nat.eqb_neq in Hx. rewrite Hx. auto. }
     assert (has_in (events_c (cx s2 x)) = true) as Hi.
-    { unfold events_c. rewrite E2. destruct (ev_hup (cx s2 x)); auto. }
+    { unfold events_c. rewrite E2. destruct (ev_hup (cx s2 x)), (ev_err (cx s2 x)); auto. }
     split; [|rewrite Ee; auto].
     apply filter_In. split.
     - apply in_map_iff. exists (x, lookup x rep). split; auto. eapply nth_error_In; eauto.
